@@ -244,3 +244,185 @@ Proof.
   pose proof (ML_ct_learner t r b (get_task s t) p (task_scq s t) s4 (W_task_fresh _ HW4) (W_op_fresh _ HW4) ltac:(lia) H4) as H5.
   destruct (ct_learner t r b (get_task s t) p (task_scq s t) s4) as [s5 retry]. cbn [fst] in H5. apply ML_ct_tail. exact H5.
 Qed.
+
+(* ---- everything else ---------------------------------------------------------------------------------------------------------------------------------------------- *)
+Definition WM (s : state) : Prop := W s /\ ML s.
+Ltac wm_prim H := destruct H as [HWx HMx]; split; [match type of HWx with W ?s0 => apply (W_step1 s0); [exact HWx|let HWL := fresh "HWL" in intro HWL; w_go2] end|ml_go0].
+
+Lemma WM_complete_task : forall t r b s, (t < s_ntasks s)%nat -> WM s -> WM (complete_task t r b s).
+Proof.
+  intros t r b s Ht [A B]. split; [apply (W_of_WL_step t s _ A Ht); apply WL_complete_task; left; reflexivity|apply ML_complete_task; assumption].
+Qed.
+
+Lemma WM_cancel_all_queued : forall i r s, WM s -> WM (cancel_all_queued i r s).
+Proof.
+  intros i r s H. rewrite cancel_all_queued_eq. apply cancel_go_closed; [|exact H].
+  intros s1 d v o tl H1 Hin Hq. apply WM_complete_task; [|exact H1]. exact (W_pick_qop _ _ _ _ _ (proj1 H1) Hin Hq).
+Qed.
+
+Lemma ML_operation_remove : forall o s, W s -> op_alive s o = true -> ML s -> ML (operation_remove o s).
+Proof.
+  intros o s HW Ha H. pose proof (W_pick_op _ _ HW Ha) as Hlt. unfold operation_remove. cbv zeta.
+  match goal with |- ML (upd_task ?t _ (set s_ops _ ?e)) => assert (H1 : ML e) end.
+  { destruct (Nat.eqb _ 1); [apply ML_complete_task; [exact HW|exact Hlt|exact H]|].
+    unfold task_stage. destruct (t_resp (get_task s (o_task (get_op s o)))); [destruct (t_worker (get_task s (o_task (get_op s o)))); exact H|].
+    destruct (t_worker (get_task s (o_task (get_op s o)))) as [w|]; cbv iota; [ml_go0|].
+    match goal with |- ML (fst (fold_left ?g ?l ?a)) => apply (fold_left_pres (fun acc => ML (fst acc)) g l) end; [|cbn [fst]; ml_go0].
+    intros [s1 go] j Hs1. cbn [fst] in *. destruct go; [ml_go0|exact Hs1]. }
+  match goal with |- ML (upd_task ?t _ (set s_ops _ ?e)) => set (s1 := e) in *; set (tt := t) end. clearbody s1.
+  assert (H2 : ML (s1 <| s_ops := adel Nat.eqb o (s_ops s1) |>)) by (apply ML_delop; exact H1).
+  apply ML_upd_task; [|exact H2]. split; [reflexivity|]. cbn [t_ops set]. intros o' Ha' Hin.
+  assert (Hne : o' <> o).
+  { intros ->. unfold op_alive in Ha'. cbn in Ha'. rewrite (aget_adel_same Nat.eqb nat_eqb_eq) in Ha' by exact (proj1 H1). discriminate. }
+  rewrite (get_task_frame s1) in Hin |- * by reflexivity. apply in_map_iff in Hin. destruct Hin as [[i0 o0] [E Hin]]. cbn in E. subst o0.
+  apply in_map_iff. exists (i0, o'). split; [reflexivity|]. apply filter_In. split; [exact Hin|]. apply negb_true_iff. apply Nat.eqb_neq. congruence.
+Qed.
+
+Lemma WM_run_entry : forall e s, In e (cleanup_entries s) -> WM s -> WM (run_entry e s).
+Proof.
+  intros e s Hin [HW H]. split; [apply (W_step1 s); [exact HW|apply WL_run_entry; exact Hin]|].
+  destruct e as [z ce]. unfold run_entry. cbn [fst snd]. destruct ce as [o|w|k].
+  - apply ML_operation_remove; [apply (W_step1 s); [exact HW|intro HWL; w_go2]|rewrite op_alive_upd_op; eapply cleanup_entry_op_alive; exact Hin|ml_go0].
+  - unfold remove_stale_worker, mark_terminating. cbv zeta.
+    set (s1 := upd_worker w (fun k => k <| k_term := true |>) (upd_worker w (fun k => k <| k_cleanup := None |>) s)).
+    assert (H1 : WM s1) by (unfold s1; split; [apply (W_step1 s); [exact HW|intro HWL; w_go2]|ml_go0]). clearbody s1.
+    set (s2 := match k_task (get_worker s1 w) with None => s1 | Some t => complete_task t (mkResp cUNAVAILABLE 0 0) false s1 end).
+    assert (H2 : ML s2).
+    { unfold s2. destruct (k_task (get_worker s1 w)) as [t|] eqn:Ek; [|exact (proj2 H1)].
+      apply ML_complete_task; [exact (proj1 H1)|exact (W_pick_worker _ _ _ (proj1 H1) Ek)|exact (proj2 H1)]. }
+    clearbody s2. ml_go0.
+  - unfold scq_remove. cbv zeta. set (s0 := upd_scq k (fun q => q <| q_cleanup := None |>) s).
+    assert (H0 : WM s0) by (unfold s0; split; [apply (W_step1 s); [exact HW|intro HWL; w_go2]|ml_go0]). clearbody s0.
+    pose proof (proj2 (WM_cancel_all_queued (mkI k []) (mkResp cUNAVAILABLE 0 0) s0 H0)) as H1.
+    set (s1 := cancel_all_queued _ _ s0) in *. clearbody s1. ml_go0.
+Qed.
+
+Lemma WM_enter : forall t s, WM s -> WM (enter t s).
+Proof.
+  intros t s H. split; [apply (W_step1 s); [exact (proj1 H)|apply WL_enter]|]. unfold enter. destruct (s_now s <? t); [|exact (proj2 H)]. cbv zeta.
+  assert (Hc : WM (cleanup_run (S (List.length (s_ops (s <| s_now := t |>)) + List.length (s_scqs (s <| s_now := t |>)) + List.length (flat_map (fun '(_, q) => q_workers q) (s_scqs (s <| s_now := t |>))))) (s <| s_now := t |>))); [|exact (proj2 Hc)].
+  apply cleanup_run_closed; [intros s1 w H1; wm_prim H1 | intros; apply WM_run_entry; assumption | wm_prim H].
+Qed.
+
+Lemma ML_get_next_task : forall c w b pr s, ML s -> ML (get_next_task c w b pr s).
+Proof. intros. unfold get_next_task, sync_loop, assign_next_queued_task, sync_return_exec, sync_return_idle, finish_sync. ml_go0. Qed.
+
+Lemma WM_get_current_or_next : forall c w b pr s, WM s -> WM (get_current_or_next c w b pr s).
+Proof.
+  intros c w b pr s [HW H]. split; [apply (W_step1 s); [exact HW|apply WL_get_current_or_next]|]. unfold get_current_or_next.
+  destruct (k_task (get_worker s w)) as [t|] eqn:Ek; [|apply ML_get_next_task; exact H].
+  destruct (Nat.ltb _ _); [unfold sync_return_exec, finish_sync; ml_go0|].
+  apply ML_get_next_task. apply ML_complete_task; [exact HW|exact (W_pick_worker _ _ _ HW Ek)|exact H].
+Qed.
+
+Lemma WM_sync_start : forall c a s, WM s -> WM (sync_start c a s).
+Proof.
+  intros c a s H. apply sync_start_closed; try exact H.
+  - intros s0 code H0. unfold ret. wm_prim H0.
+  - intros s0 k H0. wm_prim H0.
+  - intros s0 k b H0. unfold add_scq. wm_prim H0.
+  - intros s0 k l m b H0. unfold add_pq. wm_prim H0.
+  - intros s0 w H0. wm_prim H0.
+  - intros s0 k w n H0. wm_prim H0.
+  - intros s0 i H0. wm_prim H0.
+  - intros s0 w code H0. unfold sync_return_err, finish_sync. wm_prim H0.
+  - intros s0 w b pr H0. apply WM_get_current_or_next. exact H0.
+  - intros s0 w b pr [A B]. split; [apply (W_step1 s0); [exact A|apply WL_get_next_task]|apply ML_get_next_task; exact B].
+  - intros s0 w d z H0. unfold finish_sync. wm_prim H0.
+  - intros s0 w t r H0 Hk. apply WM_complete_task; [exact (W_pick_worker _ _ _ (proj1 H0) Hk)|exact H0].
+Qed.
+
+Lemma ML_exec_start : forall c a s, W s -> ML s -> ML (exec_start c a s).
+Proof.
+  intros c a s HW H. unfold exec_start. pose proof (W_op_fresh s HW) as Hfo.
+  destruct (aget dkey_eqb _ _) as [t0|].
+  - cbv zeta. set (k := task_scq (emit (OGhost GSelAbandoned) s) t0).
+    set (s2 := get_or_create_invocation k (x_keys a) (emit (OGhost GSelAbandoned) s)). assert (H2 : ML s2) by (unfold s2; ml_go0).
+    destruct (goc_frames k (x_keys a) (emit (OGhost GSelAbandoned) s)) as [_ [G2 _]]. destruct (get_or_create_invocation_tasks k (x_keys a) (emit (OGhost GSelAbandoned) s)) as [_ [G3 _]]. fold s2 in G2, G3.
+    destruct (aget iref_eqb _ _); [unfold wait_execution_begin, stream_iter; ml_go0|].
+    assert (Hfo2 : aget Nat.eqb (s_nops s2) (s_ops s2) = None) by (rewrite G3, G2; exact Hfo).
+    pose proof (ML_new_operation s2 t0 (x_prio a) (mkI k (x_keys a)) false Hfo2 ltac:(discriminate) H2) as H3.
+    destruct (new_operation t0 (x_prio a) (mkI k (x_keys a)) false s2) as [s3 o3]. cbn [fst] in H3. clearbody s2.
+    unfold wait_execution_begin, stream_iter. ml_go0.
+  - destruct (longest_prefix_pq s _ _) as [p|]; [|unfold ret; ml_go0].
+    destruct (x_sel a) as [[[idx dur] timeout] l]. cbv zeta.
+    set (s1 := emit (OGhost GSelect) s).
+    match goal with |- context [set s_tasks (fun ts => ts ++ [(?tt, ?xx)])] => set (x := xx); set (t := tt) end.
+    set (sN := s1 <| s_ntasks ::= S |> <| s_tasks ::= fun ts => ts ++ [(t, x)] |>).
+    assert (HN : ML sN) by (unfold sN, t; apply ML_newtask; unfold s1; ml_go0).
+    set (s3 := if x_dnc a then sN else sN <| s_inflight ::= aset dkey_eqb (x_instance a, x_digest a) t |>).
+    assert (H3 : ML s3 /\ s_ops s3 = s_ops s /\ s_nops s3 = s_nops s) by (unfold s3; destruct (x_dnc a); [split; [exact HN|split; reflexivity]|split; [eapply ML_frame; [| |exact HN]; reflexivity|split; reflexivity]]).
+    destruct H3 as [H3 [Eo3 En3]]. clearbody s3.
+    set (s4 := get_or_create_invocation (mkSK (p_key p) (nth idx (p_scs p) 0%N)) (x_keys a) s3). assert (H4 : ML s4) by (unfold s4; ml_go0).
+    destruct (goc_frames (mkSK (p_key p) (nth idx (p_scs p) 0%N)) (x_keys a) s3) as [_ [G2 _]]. destruct (get_or_create_invocation_tasks (mkSK (p_key p) (nth idx (p_scs p) 0%N)) (x_keys a) s3) as [_ [G3 _]]. fold s4 in G2, G3.
+    assert (Hfo4 : aget Nat.eqb (s_nops s4) (s_ops s4) = None) by (rewrite G3, G2, Eo3, En3; exact Hfo).
+    pose proof (ML_new_operation s4 t (x_prio a) (mkI (mkSK (p_key p) (nth idx (p_scs p) 0%N)) (x_keys a)) false Hfo4 ltac:(discriminate) H4) as H5.
+    destruct (new_operation t (x_prio a) _ false s4) as [s5 o5]. cbn [fst] in H5. clearbody s4.
+    unfold wait_execution_begin, stream_iter. ml_go0.
+Qed.
+
+Lemma ML_terminate_fold : forall p l s waits,
+  ML s -> ML (fst (fold_left (fun (acc : state * list (nat * nat)) w =>
+        let '(s, waits) := acc in
+        if matches w p then
+          let s := mark_terminating w s in
+          match k_task (get_worker s w) with
+          | Some tk => (s, waits ++ [(tk, t_gen (get_task s tk))])
+          | None => (if k_wait (get_worker s w) then wake_up w s else s, waits)
+          end
+        else (s, waits)) l (s, waits))).
+Proof. intros p l s waits H. apply (fr_terminate_fold ML); try (intros; t_ML); try exact H. Qed.
+
+Lemma WM_step_core : forall e s, WM s -> WM (step_core e s).
+Proof.
+  intros e s H. split; [apply (W_step1 s); [exact (proj1 H)|apply WL_step_core]|].
+  assert (He : forall t, WM (enter t s)) by (intro t; apply WM_enter; exact H).
+  destruct e; unfold step_core.
+  - destruct (He t) as [A B]. apply ML_exec_start; assumption.
+  - destruct (He t) as [_ B]. set (s1 := enter t s) in *. clearbody s1. cbv zeta. unfold ret. ml_go0.
+  - exact (proj2 (WM_sync_start c a _ (He t))).
+  - destruct (He t) as [_ B]. set (s1 := enter t s) in *. clearbody s1. unfold kill_lookup, ret. ml_go0.
+  - destruct (He t) as [A B]. set (s1 := enter t s) in *. clearbody s1. cbv zeta.
+    destruct (negb (scq_exists s1 k)); [unfold ret; ml_go0|]. destruct (negb _); [unfold ret; ml_go0|].
+    pose proof (proj2 (WM_cancel_all_queued (mkI k []) (mkResp code 0 0) s1 (conj A B))) as Hc. set (s2 := cancel_all_queued _ _ s1) in *. clearbody s2. unfold ret. ml_go0.
+  - destruct (He t) as [_ B]. set (s1 := enter t s) in *. clearbody s1. cbv zeta. unfold ret, wake_up. ml_go0.
+  - destruct (He t) as [_ B]. set (s1 := enter t s) in *. clearbody s1. cbv zeta. unfold ret. ml_go0.
+  - cbv zeta. destruct (He t) as [_ B]. set (s1 := enter t s) in *. clearbody s1.
+    match goal with |- ML (match ?x with _ => _ end) => rewrite (surjective_pairing x) end. cbv beta iota.
+    match goal with |- ML (set_call _ _ (fst (fold_left ?g ?l ?a))) => assert (H2 : ML (fst (fold_left g l a))) by (apply ML_terminate_fold; exact B) end.
+    t_ML.
+  - destruct (_ || _); [destruct H as [_ B]; unfold ret; ml_go0|]. cbv zeta. destruct (He t) as [_ B]. set (s1 := enter t s) in *. clearbody s1.
+    destruct (get_pq s1 k); unfold ret, add_pq; [ml_go0|].
+    match goal with |- ML (set_call _ _ (emit _ (fold_left ?g ?l ?a))) => assert (H2 : ML (fold_left g l a)) end.
+    { apply fold_left_pres; [intros a0 sc Ha0; unfold add_scq; ml_go0|ml_go0]. }
+    ml_go0.
+  - destruct (He t) as [_ B]. unfold ret. ml_go0.
+  - cbv zeta. destruct (negb (at_gate s (get_call s c))); [exact (proj2 H)|]. destruct (He t) as [A B]. set (s1 := enter t s) in *. clearbody s1.
+    destruct (get_call s c); try exact B;
+      try (unfold stream_iter, stream_return, kill_lookup, wait_execution_begin, stream_iter, ret, sync_loop, assign_next_queued_task, sync_return_exec, sync_return_err, sync_return_idle, finish_sync, maybe_dequeue, maybe_start_cleanup; ml_go0; fail).
+    destruct (op_alive s1 name) eqn:Ea; [|ml_go0].
+    pose proof (ML_complete_task (o_task (get_op s1 name)) (mkResp code 0 0) false s1 A (W_pick_op _ _ A Ea) B) as Hc.
+    set (s2 := complete_task _ _ false s1) in *. clearbody s2. unfold ret. ml_go0.
+  - cbv zeta. destruct (at_gate s (get_call s c)); [exact (proj2 H)|]. destruct (He t) as [_ B]. destruct H as [_ B0]. set (s1 := enter t s) in *. clearbody s1.
+    destruct (get_call s c); unfold stream_iter, sync_return_exec, sync_return_idle, finish_sync, maybe_dequeue; ml_go0.
+  - cbv zeta. destruct (at_gate s (get_call s c)); [exact (proj2 H)|]. destruct H as [_ B]. destruct (get_call s c); unfold ret; ml_go0.
+Qed.
+
+Lemma WM_step : forall s eh, WM s -> WM (fst (step s eh)).
+Proof.
+  intros s eh [HW H]. split; [apply W_step; exact HW|]. unfold step. cbn [fst].
+  set (s0 := s <| s_hints := snd eh |> <| s_out := [] |>).
+  assert (H0 : WM s0) by (split; [apply (W_step1 s); [exact HW|intro HWL; eapply WL_frame; [..|exact HWL]; reflexivity]|eapply ML_frame; [| |exact H]; reflexivity]).
+  pose proof (proj2 (WM_step_core (fst eh) s0 H0)) as H1. set (s1 := step_core (fst eh) s0) in *. clearbody s1.
+  assert (H2 : ML (auto_returns s1)) by (apply (fr_auto_returns ML); try (intros; t_ML); try (intros; unfold ret; ml_go0); try exact H1).
+  eapply ML_frame; [| |exact H2]; reflexivity.
+Qed.
+
+Lemma ML_run : forall cfg t0 evs, ML (fst (run (init cfg t0) evs)).
+Proof.
+  intros cfg t0 evs.
+  assert (H : forall evs s, WM s -> WM (fst (run s evs))).
+  { induction evs0 as [|eh evs0 IH]; intros s H; [exact H|]. cbn [run]. pose proof (WM_step s eh H) as H1.
+    destruct (step s eh) as [s1 o]. cbn [fst] in H1. specialize (IH s1 H1). destruct (run s1 evs0) as [s2 os]. exact IH. }
+  apply H. split; [apply W_init|]. split; [constructor|]. intros o Ha. unfold op_alive, init in Ha. cbn in Ha. discriminate.
+Qed.
